@@ -1,18 +1,30 @@
 #!/bin/bash
 # usage: evalmutant.sh <patch.diff> <prop> [<prop>...]
-# Applies the patch to /repo's working tree, runs the quick tier of the given checks, and reverts.
-# Prints one line per check: <prop> rc=<0|1|2> <first violation rule/shape or summary>
+# Runs the given checks (tier $TIER, default quick) against the engine with the patch applied.
+# Default: applies the patch to /repo's working tree and reverts it afterwards (as the task
+# prescribes). With EVAL_WORKTREE=1 a scratch worktree under /tmp is used instead, so that /repo is
+# not disturbed while a background run is reading it.
 set -u
-PATCH="$1"; shift
-cd /repo || exit 2
-if ! git diff --quiet; then echo "evalmutant: /repo working tree is not clean" >&2; exit 2; fi
-git apply "$PATCH" || { echo "evalmutant: patch does not apply" >&2; exit 2; }
-trap 'git -C /repo checkout -- . ; git -C /repo clean -fdq -- . 2>/dev/null' EXIT
+PATCH="$(realpath "$1")"; shift
+if [ "${EVAL_WORKTREE:-0}" = "1" ]; then
+  WT=$(mktemp -d /tmp/evalmut.XXXXXX); rmdir "$WT"
+  git -C /repo worktree add -q --detach "$WT" HEAD || exit 2
+  trap 'git -C /repo worktree remove --force "$WT"' EXIT
+  git -C "$WT" apply "$PATCH" || { echo "evalmutant: patch does not apply" >&2; exit 2; }
+  export VERIF_REPO="$WT"
+else
+  cd /repo || exit 2
+  if ! git diff --quiet; then echo "evalmutant: /repo working tree is not clean" >&2; exit 2; fi
+  git apply "$PATCH" || { echo "evalmutant: patch does not apply" >&2; exit 2; }
+  trap 'git -C /repo checkout -- .' EXIT
+fi
 cd /verif
+export VERIF_EVIDENCE_DIR=/tmp/evalmut-evidence VERIF_REPLAYS_DIR=/tmp/evalmut-replays
+mkdir -p $VERIF_EVIDENCE_DIR
 for p in "$@"; do
-  rm -rf /verif/replays
+  rm -rf /tmp/evalmut-replays
   out=$(VERIF_SEED=${VERIF_SEED:-1} ./check $p ${TIER:-quick} 2>&1); rc=$?
-  first=$(echo "$out" | grep -A1 '^VIOLATION' | tail -1 | cut -c1-220)
-  echo "$p rc=$rc $(echo "$out" | grep '^check ' | sed 's/.*: //' | cut -c1-80) | $first"
+  first=$(echo "$out" | grep -A1 '^VIOLATION' | sed -n 2p | cut -c1-220)
+  echo "$p rc=$rc $(echo "$out" | grep '^check ' | sed 's/^check [^:]*: //' | cut -c1-70) | $first"
   if [ $rc -eq 2 ]; then echo "$out" | grep -v 'error while sending' | tail -4 | cut -c1-300; fi
 done
